@@ -19,6 +19,9 @@ type Clause struct {
 	File  string
 	Line  int
 	Auto  bool // produced by the inference pass (file verif_contracts_auto.go)
+	// InTrustedBlock: the clause stands in a block that says `trusted`: assumed at call sites, not verified.
+	// Clauses of other blocks of the same function are verified against the body as usual.
+	InTrustedBlock bool
 }
 
 type BodyCall struct {
@@ -167,12 +170,19 @@ func (cs *Contracts) parseFile(file, src string) {
 	var curLoop *LoopSpec
 	var blockProps []string
 	var pendingProps []*[]string
+	var blockClauses []*Clause
+	blockTrusted := false
 	flushProps := func() {
 		for _, pp := range pendingProps {
 			if len(*pp) == 0 && len(blockProps) > 0 {
 				*pp = append([]string{}, blockProps...)
 			}
 		}
+		for _, c := range blockClauses {
+			c.InTrustedBlock = blockTrusted
+		}
+		blockClauses = nil
+		blockTrusted = false
 		pendingProps = nil
 		blockProps = nil
 	}
@@ -210,6 +220,7 @@ func (cs *Contracts) parseFile(file, src string) {
 			}
 			c := &Clause{Kind: kind, Expr: e, Text: txt, Props: props, File: file, Line: ln, Auto: strings.Contains(file, "_auto")}
 			pendingProps = append(pendingProps, &c.Props)
+			blockClauses = append(blockClauses, c)
 			return c
 		}
 		switch kw {
@@ -387,15 +398,16 @@ func (cs *Contracts) parseFile(file, src string) {
 				curLoop = &LoopSpec{Key: r, Ordinal: ord}
 				cur.Loops = append(cur.Loops, curLoop)
 			}
-		case "body_calls", "at_call", "body_stores":
-			// body_calls F iff COND      at_call F: EXPR      body_stores T.f iff COND
+		case "body_calls", "at_call", "body_stores", "at_store":
+			// body_calls F iff COND      at_call F: EXPR      body_stores T.f iff COND      at_store T.f: EXPR
+			// (at_store: EXPR holds at every store to field f of a T; `value` names the stored value)
 			if curLoop == nil && cur == nil {
 				cs.errf(file, ln, "%s outside func block", kw)
 				continue
 			}
 			props, txt := splitProps(rest)
 			sep := " iff "
-			if kw == "at_call" {
+			if kw == "at_call" || kw == "at_store" {
 				sep = ": "
 			}
 			j := strings.Index(txt, sep)
@@ -414,6 +426,11 @@ func (cs *Contracts) parseFile(file, src string) {
 				bc.Fn = "store:" + bc.Fn
 				bc.Text = "stores " + txt
 				kw = "body_calls"
+			}
+			if kw == "at_store" {
+				bc.Fn = "store:" + bc.Fn
+				bc.Text = "store " + txt
+				kw = "at_call"
 			}
 			switch {
 			case kw == "body_calls" && curLoop != nil:
@@ -494,6 +511,7 @@ func (cs *Contracts) parseFile(file, src string) {
 		case "trusted":
 			if cur != nil {
 				cur.Trusted = rest
+				blockTrusted = true
 				if cur.Trusted == "" {
 					cur.Trusted = "trusted"
 				}
